@@ -217,9 +217,10 @@ func compile0(expr ast.Expr, env1 *val.Env, dbg bool) compiler.Closure {
 	case *ast.MemberExpr:
 		// 也可以 desugar 成 build-in-fun
 		obj := compile(e.Obj, env1, dbg)
-		idx := e.Index
+		name := e.Field.Name
 		return func(env *val.Env) *val.Val {
-			return obj(env).Obj().V[idx]
+			v, _ := obj(env).Obj().Get(name)
+			return v
 		}
 
 	//case *ast.IfExpr:
